@@ -1,10 +1,10 @@
 package main
 
 import (
-	"sort"
 	"fmt"
 	"go/token"
 	"go/types"
+	"sort"
 	"strings"
 
 	"golang.org/x/tools/go/ssa"
@@ -861,7 +861,8 @@ func checkHashedBucketKeys(c *Ctx, rule string) {
 			}
 			n++
 			okKey := false
-			sl := &Slicer{P: p, InterProc: true, ThroughCallArgs: func(call *ssa.Call, arg ssa.Value) bool { return false }}
+			sl := &Slicer{P: p, InterProc: true, ThroughCallArgs: func(call *ssa.Call, arg ssa.Value) bool { return false },
+				ThroughReturns: func(callee *ssa.Function) bool { return fnPkgPath(callee) == fnPkgPath(fn) }} // a same-package hashing helper
 			for _, o := range sl.Origins(call.Call.Args[0]) {
 				if sc, ok := o.(*ssa.Call); ok && calleeShort(&sc.Call) == "Sum256" {
 					okKey = true
